@@ -98,6 +98,9 @@ func genIndCase(rng *rand.Rand, tier string, equalOnly bool) *Case {
 		maxLong = 320
 	}
 	n := genLen(rng, ii.Idle, maxLong)
+	if rng.Intn(300) == 0 {
+		n = 1000 + rng.Intn(1400) // years of daily bars in one stream: more than any batch, block or refresh interval
+	}
 	c.Lens = make([]int, len(e.Sig))
 	for i := range c.Lens {
 		c.Lens[i] = n
